@@ -3,6 +3,7 @@ package evaluator
 import (
 	"errors"
 	"fmt"
+	"math"
 	"strings"
 
 	"github.com/textwire/textwire/v2/config"
@@ -89,6 +90,10 @@ func hasCustomFunc(customFunc *config.Func, t object.ObjectType, funcName string
 	}
 }
 
+// maxStrLen is the length in bytes above which a function
+// refuses to build a string instead of exhausting the memory
+const maxStrLen = math.MaxInt32
+
 func addDecimals(receiver object.Object, objType object.ObjectType, args ...object.Object) (object.Object, error) {
 	var val string
 
@@ -130,6 +135,11 @@ func addDecimals(receiver object.Object, objType object.ObjectType, args ...obje
 		}
 
 		decimals = max(int(decimalArg.Value), 0)
+
+		if decimals > maxStrLen {
+			msg := fmt.Sprintf(fail.ErrFuncResultTooLong, "decimal", objType, maxStrLen)
+			return nil, errors.New(msg)
+		}
 	}
 
 	zeros := strings.Repeat("0", decimals)
